@@ -244,4 +244,558 @@ theorem finish_program_finish (env : Env) (cur : Option Exc) (w : World) (p : Bl
   obtain ⟨a', h1, h2, _⟩ := finishRec_sets_finished env w h x a ha
   exact no_second_end env cur _ p h a' h1 h2 y
 
+/-! ## exactly one start message -/
+
+/-- **one_start_message**: `_start` stages exactly one dict — `m` with the global fields merged —
+and `m` says `started`, carries the action's uuid, the action's level extended by its next position,
+its type, and under every non-structural key exactly the caller's start field. -/
+theorem one_start_message (env : Env) (hh : Healthy env) (w : World) (h : Nat) (a : Act) (f : Fields)
+    (ha : w.acts[h]? = some a) (hs : a.sers = none) :
+    ∃ m : Msg, (w.startRec env h f).stage = w.stage ++ [Fields.update m w.globals] ∧
+      m.get? "action_status" = some (.str "started") ∧ m.get? "task_uuid" = some (.uuid a.uuid) ∧
+      m.get? "task_level" = some (.lvl (a.level ++ [a.last + 1])) ∧ m.get? "action_type" = some (.str a.atype) ∧
+      (∀ k, k ∉ STRUCT → m.get? k = f.get? k) ∧
+      (∀ k, w.globals.get? k = none → (Fields.update m w.globals).get? k = m.get? k) := by
+  obtain ⟨s1, s2, s3, s4, _, s6⟩ := startDict_spec a (.ts w.tick) f
+  exact ⟨_, startRec_stage env hh w h a f ha hs, s1, s2, s3, s4, s6, fun k hk => staged_get _ _ k hk⟩
+
+/-! ## exactly one, truthful, end message -/
+
+/-- what `get_fields_for_exception` returns, for every environment: the fields of the extractor
+registered for the nearest class in the MRO, `{}` when there is none or when it raises -/
+theorem getFields_fields (env : Env) (w : World) (e : Exc) :
+    (World.getFields env FUEL w e).2 =
+      (match firstExtractor env (env.mro (e.cls env)) with
+       | none => []
+       | some f => match f e w.extCalls with
+         | .ok fs => fs
+         | .error _ => []) := by
+  simp only [FUEL, World.getFields]
+  cases firstExtractor env (env.mro (e.cls env)) with
+  | none => rfl
+  | some f =>
+    simp only
+    cases f e w.extCalls <;> rfl
+
+/-- The end message in general form (every extractor behaviour): `finish` on an unfinished action
+stages `pre ++ [m + globals]` where `pre` is whatever `get_fields_for_exception` logged (nothing
+unless an extractor raised), and `m` is `succeeded` iff no exception was given, `failed` iff one
+was — then with its module-qualified class name and `safeunicode` text. -/
+theorem end_message (env : Env) (hh : Healthy env) (w : World) (h : Nat) (a : Act) (exc : Option Exc)
+    (ha : w.acts[h]? = some a) (hf : a.finished = false) (hs : exc = none → a.sers = none) :
+    ∃ (pre : List Msg) (m : Msg),
+      (w.finishRec env h exc).stage = w.stage ++ pre ++ [Fields.update m w.globals] ∧
+      (m.get? "action_status" = some (.str "failed") ↔ exc ≠ none) ∧
+      (m.get? "action_status" = some (.str "succeeded") ↔ exc = none) ∧
+      (∀ e, exc = some e → m.get? "exception" = some (.str (e.qual env)) ∧ m.get? "reason" = some (.str (e.safeStr env)) ∧
+        ∀ k, k ∉ STRUCT → k ≠ "exception" → k ≠ "reason" → m.get? k = (World.getFields env FUEL (w.setFin h a) e).2.get? k) ∧
+      (exc = none → ∀ k, k ∉ STRUCT → m.get? k = a.succ.get? k) ∧
+      m.get? "task_uuid" = some (.uuid a.uuid) ∧ m.get? "action_type" = some (.str a.atype) ∧
+      (∃ n, a.last ≤ n ∧ m.get? "task_level" = some (.lvl (a.level ++ [n + 1]))) ∧
+      ((∀ e, exc = some e → firstExtractor env (env.mro (e.cls env)) = none ∨
+          ∃ f fs, firstExtractor env (env.mro (e.cls env)) = some f ∧ f e w.extCalls = .ok fs) →
+        pre = [] ∧ m.get? "task_level" = some (.lvl (a.level ++ [a.last + 1]))) := by
+  cases exc with
+  | none =>
+    obtain ⟨s1, s2, s3, s4, s5⟩ := succDict_spec a (.ts w.tick)
+    refine ⟨[], succDict a (.ts w.tick), ?_, ?_, ?_, ?_, fun _ => s5, s2, s4, ⟨a.last, Nat.le_refl _, s3⟩, fun _ => ⟨rfl, s3⟩⟩
+    · rw [finish_ok_stage env hh w h a ha hf (hs rfl)]; simp
+    · rw [s1]; simp
+    · rw [s1]; simp
+    · intro e he; cases he
+  | some e =>
+    obtain ⟨a', h1, h2, h3, h4, h5, h6⟩ := finish_err_stage env hh w h a e ha hf
+    obtain ⟨pre, hpre⟩ := (frame_getFields env FUEL (w.setFin h a) e).stage
+    have hpre' : (World.getFields env FUEL (w.setFin h a) e).1.stage = w.stage ++ pre := hpre.symm
+    obtain ⟨s1, s2, s3, s4, s5, s6, s7⟩ := failDict_spec env a' (.ts (World.getFields env FUEL (w.setFin h a) e).1.tick) e
+      (World.getFields env FUEL (w.setFin h a) e).2
+    refine ⟨pre, _, by rw [h6, hpre'], ?_, ?_, ?_, ?_, by rw [s4, h2], by rw [s6, h4], ⟨a'.last, h5, by rw [s5, h3]⟩, ?_⟩
+    · rw [s1]; simp
+    · rw [s1]; simp
+    · intro e' he
+      cases he
+      exact ⟨s2, s3, s7⟩
+    · intro he; cases he
+    · intro hx
+      have hq : (World.getFields env FUEL (w.setFin h a) e).1.stage = w.stage ∧ a'.last = a.last := by
+        rcases hx e rfl with hx | ⟨f, fs, hx, hr⟩
+        · rw [getFields_noext env _ e hx] at h1 ⊢
+          rw [setFin_get w h a ha] at h1
+          cases h1
+          exact ⟨rfl, rfl⟩
+        · have hr' : f e (w.setFin h a).extCalls = .ok fs := hr
+          rw [getFields_ok env _ e f fs hx hr'] at h1 ⊢
+          have h1' : (w.setFin h a).acts[h]? = some a' := h1
+          rw [setFin_get w h a ha] at h1'
+          cases h1'
+          exact ⟨rfl, rfl⟩
+      refine ⟨?_, by rw [s5, h3, hq.2]⟩
+      have := hq.1
+      rw [hpre'] at this
+      exact List.append_right_eq_self.mp this
+
+/-- **one_end_message**: on a finished action `finish` is the identity (nothing staged); on an
+unfinished one exactly one dict is staged: `succeeded` with exactly the success fields when no
+exception is given; `failed` with `exception` = module-qualified class name and `reason` =
+`safeunicode(e)` (the fixed fallback text when `str()` raises) and nothing else when `e`'s MRO has no
+extractor (with an extractor: `extractor_mro`, `extractor_raise_contained`). -/
+theorem one_end_message (env : Env) (hh : Healthy env) (w : World) (h : Nat) (a : Act) (ha : w.acts[h]? = some a) :
+    (a.finished = true → ∀ exc, w.finishRec env h exc = w) ∧
+    (a.finished = false → a.sers = none →
+      ∃ m : Msg, (w.finishRec env h none).stage = w.stage ++ [Fields.update m w.globals] ∧
+        m.get? "action_status" = some (.str "succeeded") ∧ m.get? "task_uuid" = some (.uuid a.uuid) ∧
+        m.get? "task_level" = some (.lvl (a.level ++ [a.last + 1])) ∧ m.get? "action_type" = some (.str a.atype) ∧
+        ∀ k, k ∉ STRUCT → m.get? k = a.succ.get? k) ∧
+    (a.finished = false → ∀ e : Exc, firstExtractor env (env.mro (e.cls env)) = none →
+      ∃ m : Msg, (w.finishRec env h (some e)).stage = w.stage ++ [Fields.update m w.globals] ∧
+        m.get? "action_status" = some (.str "failed") ∧
+        m.get? "exception" = some (.str (e.qual env)) ∧ m.get? "reason" = some (.str (e.safeStr env)) ∧
+        m.get? "task_uuid" = some (.uuid a.uuid) ∧
+        m.get? "task_level" = some (.lvl (a.level ++ [a.last + 1])) ∧ m.get? "action_type" = some (.str a.atype) ∧
+        ∀ k, k ∉ STRUCT → k ≠ "exception" → k ≠ "reason" → m.get? k = none) := by
+  refine ⟨fun hf exc => finishRec_finished env w h exc a ha hf, fun hf hs => ?_, fun hf e hx => ?_⟩
+  · obtain ⟨s1, s2, s3, s4, s5⟩ := succDict_spec a (.ts w.tick)
+    exact ⟨_, finish_ok_stage env hh w h a ha hf hs, s1, s2, s3, s4, s5⟩
+  · obtain ⟨pre, m, e1, e2, _, e4, _, e6, e7, _, e9⟩ := end_message env hh w h a (some e) ha hf (fun he => by cases he)
+    obtain ⟨p1, p2⟩ := e9 (fun e' he => by cases he; exact Or.inl hx)
+    obtain ⟨x1, x2, x3⟩ := e4 e rfl
+    subst p1
+    refine ⟨m, by simpa using e1, e2.mpr (by simp), x1, x2, e6, p2, e7, fun k k1 k2 k3 => ?_⟩
+    rw [x3 k k1 k2 k3, getFields_noext env _ e hx]
+    rfl
+
+/-! ## truthful status; the exception passes through -/
+
+theorem outcomeExc_some (o : Outcome) (e : Exc) : outcomeExc o = some e ↔ o = .raised e := by
+  cases o <;> simp [outcomeExc]
+
+theorem outcomeExc_ne_none (o : Outcome) : outcomeExc o ≠ none ↔ ∃ e, o = .raised e := by
+  cases o <;> simp [outcomeExc]
+
+/-- **failed_iff_raised**: for `with action:` around any body (`run`), the end message — the last
+dict the block stages — says `failed` exactly when the body's outcome is `raised e`, for `e` of any
+class whatsoever, and then carries that `e`'s class name and text; otherwise it says `succeeded`.
+The outcome of the block is the body's outcome: the same exception value (same identity) keeps
+propagating.  `pre` = what `get_fields_for_exception` logged (empty unless an extractor raised). -/
+theorem failed_iff_raised (env : Env) (hh : Healthy env) (w : World) (h : Nat) (run : World → World × Outcome) (a : Act)
+    (ha : (run { w with ctx := some h }).1.acts[h]? = some a) (hf : a.finished = false) (hs : a.sers = none) :
+    ∃ (pre : List Msg) (m : Msg),
+      (withBlock env w h run).1.stage =
+        (run { w with ctx := some h }).1.stage ++ pre ++ [Fields.update m (run { w with ctx := some h }).1.globals] ∧
+      (m.get? "action_status" = some (.str "failed") ↔ ∃ e, (run { w with ctx := some h }).2 = .raised e) ∧
+      (m.get? "action_status" = some (.str "succeeded") ↔ ¬ ∃ e, (run { w with ctx := some h }).2 = .raised e) ∧
+      (∀ e, (run { w with ctx := some h }).2 = .raised e →
+        m.get? "exception" = some (.str (e.qual env)) ∧ m.get? "reason" = some (.str (e.safeStr env))) ∧
+      m.get? "task_uuid" = some (.uuid a.uuid) ∧ m.get? "action_type" = some (.str a.atype) ∧
+      ((∀ e, (run { w with ctx := some h }).2 = .raised e → firstExtractor env (env.mro (e.cls env)) = none) → pre = []) ∧
+      (withBlock env w h run).2 = (run { w with ctx := some h }).2 := by
+  have ha' : ({ (run { w with ctx := some h }).1 with ctx := w.ctx } : World).acts[h]? = some a := ha
+  obtain ⟨pre, m, e1, e2, e3, e4, _, e6, e7, _, e9⟩ := end_message env hh _ h a (outcomeExc (run { w with ctx := some h }).2)
+    ha' hf (fun _ => hs)
+  refine ⟨pre, m, e1, e2.trans (outcomeExc_ne_none _), ?_, fun e he => ?_, e6, e7, fun hx => ?_, rfl⟩
+  · rw [e3, ← outcomeExc_ne_none]
+    exact ⟨fun h1 h2 => h2 h1, fun h1 => Classical.byContradiction fun h2 => h1 h2⟩
+  · obtain ⟨x1, x2, _⟩ := e4 e ((outcomeExc_some _ e).mpr he)
+    exact ⟨x1, x2⟩
+  · exact (e9 (fun e he => Or.inl (hx e ((outcomeExc_some _ e).mp he)))).1
+
+/-- **exc_identity** (re-export of `Sys.C07.exc_identity`): `__exit__` returns `None`; the exception
+leaving the block is the very one the body raised. -/
+theorem exc_identity (env : Env) (w : World) (h : Nat) (run : World → World × Outcome) :
+    (withBlock env w h run).2 = (run { w with ctx := some h }).2 := Sys.C07.exc_identity env w h run
+
+/-- …and for whole programs: the outcome is the outcome of the program's own control flow (any
+environment): no exception is swallowed, replaced or invented by an action's exit. -/
+theorem program_outcome (env : Env) (p : Block) :
+    (execB env none {} p).2 = .stuck ∨ (execB env none {} p).2 = Sys.C07.pureB p := Sys.C07.app_outcome_unchanged env p
+
+/-- a `with` block always leaves its action finished -/
+theorem withBlock_finishes (env : Env) (w : World) (h : Nat) (run : World → World × Outcome) (a : Act)
+    (ha : (run { w with ctx := some h }).1.acts[h]? = some a) :
+    ∃ a' : Act, (withBlock env w h run).1.acts[h]? = some a' ∧ a'.finished = true ∧ a'.uuid = a.uuid ∧ a'.level = a.level :=
+  finishRec_sets_finished env _ h _ a ha
+
+/-! ## which fields go where -/
+
+/-- **fields_placement**: (1) a successful end carries success fields only: every key of the staged
+dict (before the global fields are merged) is a key of `a.succ` or structural, with `a.succ`'s value;
+(2) a failed end carries extractor fields only: every key is a key of what
+`get_fields_for_exception` returned, `exception`, `reason`, or structural — so a success field (any
+key at all) that the extractor did not produce is *absent* from a failed end.  Start fields are not
+part of the action's state at all (`Act` has no such component: `_start` passes them to
+`Logger.write` and drops them), so neither end dict can contain them; the start dict in turn holds
+the start fields and nothing of `a.succ` (`one_start_message`). -/
+theorem fields_placement (env : Env) (hh : Healthy env) (w : World) (h : Nat) (a : Act)
+    (ha : w.acts[h]? = some a) (hf : a.finished = false) :
+    (a.sers = none → ∃ m : Msg, (w.finishRec env h none).stage = w.stage ++ [Fields.update m w.globals] ∧
+      (∀ k, m.get? k ≠ none → k ∈ a.succ.keys ∨ k ∈ STRUCT) ∧ (∀ k, k ∉ STRUCT → m.get? k = a.succ.get? k)) ∧
+    (∀ e : Exc, ∃ (pre : List Msg) (m : Msg),
+      (w.finishRec env h (some e)).stage = w.stage ++ pre ++ [Fields.update m w.globals] ∧
+      (∀ k, m.get? k ≠ none →
+        k ∈ (World.getFields env FUEL (w.setFin h a) e).2.keys ∨ k = "exception" ∨ k = "reason" ∨ k ∈ STRUCT) ∧
+      (∀ k, k ∉ STRUCT → k ≠ "exception" → k ≠ "reason" → k ∉ (World.getFields env FUEL (w.setFin h a) e).2.keys →
+        m.get? k = none)) := by
+  refine ⟨fun hs => ?_, fun e => ?_⟩
+  · obtain ⟨_, _, _, _, s5⟩ := succDict_spec a (.ts w.tick)
+    refine ⟨_, finish_ok_stage env hh w h a ha hf hs, fun k hk => ?_, s5⟩
+    by_cases hst : k ∈ STRUCT
+    · exact Or.inr hst
+    · rw [s5 k hst] at hk
+      exact Or.inl (get?_isSome_keys _ _ hk)
+  · obtain ⟨pre, m, e1, _, _, e4, _⟩ := end_message env hh w h a (some e) ha hf (fun he => by cases he)
+    obtain ⟨_, _, x3⟩ := e4 e rfl
+    refine ⟨pre, m, e1, fun k hk => ?_, fun k k1 k2 k3 k4 => ?_⟩
+    · by_cases hst : k ∈ STRUCT
+      · exact Or.inr (Or.inr (Or.inr hst))
+      · by_cases k2 : k = "exception"
+        · exact Or.inr (Or.inl k2)
+        · by_cases k3 : k = "reason"
+          · exact Or.inr (Or.inr (Or.inl k3))
+          · rw [x3 k hst k2 k3] at hk
+            exact Or.inl (get?_isSome_keys _ _ hk)
+    · rw [x3 k k1 k2 k3]
+      exact get?_none_of_not_keys _ _ k4
+
+/-! ## extractors: nearest class in the MRO; a raising extractor is contained -/
+
+/-- the class whose extractor is used: the first class, in MRO order, that has one registered -/
+def nearest (env : Env) (l : List Nat) : Option Nat := l.find? (fun c => (env.extractor c).isSome)
+
+theorem firstExtractor_nearest (env : Env) (l : List Nat) : firstExtractor env l = (nearest env l).bind env.extractor := by
+  induction l with
+  | nil => rfl
+  | cons c cs ih =>
+    simp only [firstExtractor, nearest, List.find?_cons]
+    cases hc : env.extractor c with
+    | some f => simp [hc]
+    | none => simp only [Option.isSome_none]; exact ih
+
+/-- **extractor_mro**: the extractor used for `e` is the one registered for the nearest class of
+`e`'s MRO — `c` with every class before it in `inspect.getmro(type(e))` unregistered —; when it
+returns `fs`, `finish(e)` stages exactly one dict, and that dict holds `fs` under every key that is
+not structural / `exception` / `reason` (those are set after, as in the source). -/
+theorem extractor_mro (env : Env) (hh : Healthy env) (w : World) (h : Nat) (a : Act) (e : Exc)
+    (ha : w.acts[h]? = some a) (hf : a.finished = false) :
+    firstExtractor env (env.mro (e.cls env)) = (nearest env (env.mro (e.cls env))).bind env.extractor ∧
+    (∀ c, nearest env (env.mro (e.cls env)) = some c ↔
+      (env.extractor c).isSome = true ∧ ∃ as bs, env.mro (e.cls env) = as ++ c :: bs ∧ ∀ c' ∈ as, env.extractor c' = none) ∧
+    (∀ c f fs, nearest env (env.mro (e.cls env)) = some c → env.extractor c = some f → f e w.extCalls = .ok fs →
+      ∃ m : Msg, (w.finishRec env h (some e)).stage = w.stage ++ [Fields.update m w.globals] ∧
+        m.get? "action_status" = some (.str "failed") ∧
+        m.get? "exception" = some (.str (e.qual env)) ∧ m.get? "reason" = some (.str (e.safeStr env)) ∧
+        ∀ k, k ∉ STRUCT → k ≠ "exception" → k ≠ "reason" → m.get? k = fs.get? k) := by
+  refine ⟨firstExtractor_nearest env _, fun c => ?_, fun c f fs hc hfx hr => ?_⟩
+  · simp only [nearest, List.find?_eq_some_iff_append]
+    constructor
+    · rintro ⟨h1, as, bs, h2, h3⟩
+      refine ⟨h1, as, bs, h2, fun c' hc' => ?_⟩
+      have := h3 c' hc'
+      cases hx : env.extractor c' with
+      | none => rfl
+      | some _ => simp [hx] at this
+    · rintro ⟨h1, as, bs, h2, h3⟩
+      exact ⟨h1, as, bs, h2, fun c' hc' => by simp [h3 c' hc']⟩
+  · have hx : firstExtractor env (env.mro (e.cls env)) = some f := by
+      rw [firstExtractor_nearest, hc]; exact hfx
+    obtain ⟨pre, m, e1, e2, _, e4, _, _, _, _, e9⟩ := end_message env hh w h a (some e) ha hf (fun he => by cases he)
+    obtain ⟨p1, _⟩ := e9 (fun e' he => by cases he; exact Or.inr ⟨f, fs, hx, hr⟩)
+    obtain ⟨x1, x2, x3⟩ := e4 e rfl
+    subst p1
+    refine ⟨m, by simpa using e1, e2.mpr (by simp), x1, x2, fun k k1 k2 k3 => ?_⟩
+    have hr' : f e (w.setFin h a).extCalls = .ok fs := hr
+    rw [x3 k k1 k2 k3, getFields_ok env _ e f fs hx hr']
+
+theorem logNoSer_stage_eq (env : Env) (hh : Healthy env) (w : World) (t : String) (f : Fields) :
+    (w.logNoSer env t f).stage =
+      w.stage ++ [Fields.update (w.currentOrFresh.1.buildLog w.currentOrFresh.2 t f).2 w.globals] := by
+  unfold World.logNoSer
+  simp only
+  have q := (quiet_currentOrFresh w).trans (quiet_buildLog w.currentOrFresh.1 w.currentOrFresh.2 t f)
+  rw [send_healthy_stage env hh, q.stage, q.frame.globals]
+
+theorem buildLog_get (w : World) (h : Nat) (t : String) (f : Fields) :
+    (w.buildLog h t f).2.get? "message_type" = some (.str t) ∧
+    ∀ k, k ≠ "timestamp" → k ≠ "task_uuid" → k ≠ "task_level" → k ≠ "message_type" → (w.buildLog h t f).2.get? k = f.get? k := by
+  refine ⟨?_, fun k k1 k2 k3 k4 => ?_⟩
+  · simp only [World.buildLog]
+    exact Fields.get?_set_self _ _ _
+  · simp only [World.buildLog]
+    rw [Fields.get?_set_ne _ _ _ _ k4, Fields.get?_set_ne _ _ _ _ k3, Fields.get?_set_ne _ _ _ _ k2,
+      Fields.get?_set_ne _ _ _ _ k1]
+
+/-- `finish(e)` when the extractor for `e` raises `e'` (and `e'` has no extractor of its own):
+exactly one `eliot:traceback` for `e'`, then the failed end without any extractor field. -/
+theorem finish_extractor_raises (env : Env) (hh : Healthy env) (w : World) (h : Nat) (a : Act) (e e' : Exc)
+    (f : Exc → Nat → Except Exc Fields) (ha : w.acts[h]? = some a) (hf : a.finished = false)
+    (hx : firstExtractor env (env.mro (e.cls env)) = some f) (hr : f e w.extCalls = .error e')
+    (hx' : firstExtractor env (env.mro (e'.cls env)) = none)
+    (hg1 : w.globals.get? "message_type" = none) (hg2 : w.globals.get? "reason" = none)
+    (hg3 : w.globals.get? "exception" = none) :
+    ∃ (tb m : Msg), (w.finishRec env h (some e)).stage = w.stage ++ [tb, Fields.update m w.globals] ∧
+      tb.get? "message_type" = some (.str "eliot:traceback") ∧
+      tb.get? "reason" = some (.str (e'.safeStr env)) ∧ tb.get? "exception" = some (.str (e'.qual env)) ∧
+      m.get? "action_status" = some (.str "failed") ∧
+      m.get? "exception" = some (.str (e.qual env)) ∧ m.get? "reason" = some (.str (e.safeStr env)) ∧
+      m.get? "task_uuid" = some (.uuid a.uuid) ∧ m.get? "action_type" = some (.str a.atype) ∧
+      ∀ k, k ∉ STRUCT → k ≠ "exception" → k ≠ "reason" → m.get? k = none := by
+  obtain ⟨a', _, h2, _, h4, _, h6⟩ := finish_err_stage env hh w h a e ha hf
+  have hr' : f e (w.setFin h a).extCalls = .error e' := hr
+  rw [getFields_raise env _ e e' f hx hr' hx'] at h6
+  simp only at h6
+  rw [logNoSer_stage_eq env hh] at h6
+  obtain ⟨s1, s2, s3, s4, _, s6, s7⟩ := failDict_spec env a'
+    (.ts (({ w.setFin h a with extCalls := (w.setFin h a).extCalls + 1 } : World).logNoSer env "eliot:traceback"
+      (tracebackFields env e' [])).tick) e []
+  obtain ⟨b1, b2⟩ := buildLog_get ({ w.setFin h a with extCalls := (w.setFin h a).extCalls + 1 } : World).currentOrFresh.1
+    ({ w.setFin h a with extCalls := (w.setFin h a).extCalls + 1 } : World).currentOrFresh.2 "eliot:traceback"
+    (tracebackFields env e' [])
+  refine ⟨_, _, by rw [h6]; simp; rfl, ?_, ?_, ?_, s1, s2, s3, by rw [s4, h2], by rw [s6, h4], fun k k1 k2 k3 => ?_⟩
+  · exact (staged_get _ _ _ hg1).trans b1
+  · refine (staged_get _ _ _ hg2).trans ?_
+    rw [b2 _ (by decide) (by decide) (by decide) (by decide)]
+    simp [tracebackFields, Fields.update, Fields.get?]
+  · refine (staged_get _ _ _ hg3).trans ?_
+    rw [b2 _ (by decide) (by decide) (by decide) (by decide)]
+    simp [tracebackFields, Fields.update, Fields.get?]
+  · rw [s7 k k1 k2 k3]; rfl
+
+/-- **extractor_raise_contained**: the body of `with action:` raised `e`, the extractor registered for
+the nearest class of `e`'s MRO raises `e'` (which has no extractor itself).  Then the block stages
+exactly one `eliot:traceback` describing `e'`, followed by the `failed` end message of `e` with *no*
+extractor field at all (`get_fields_for_exception` returned `{}`), and the block's outcome is still
+`raised e`: the extractor's exception neither escapes nor replaces `e`.  (Global fields must not
+override `message_type` / `reason` / `exception`, or the traceback would not be recognisable.) -/
+theorem extractor_raise_contained (env : Env) (hh : Healthy env) (w : World) (h : Nat) (run : World → World × Outcome)
+    (a : Act) (e e' : Exc) (f : Exc → Nat → Except Exc Fields)
+    (hr0 : (run { w with ctx := some h }).2 = .raised e)
+    (ha : (run { w with ctx := some h }).1.acts[h]? = some a) (hf : a.finished = false)
+    (hx : firstExtractor env (env.mro (e.cls env)) = some f) (hr : f e (run { w with ctx := some h }).1.extCalls = .error e')
+    (hx' : firstExtractor env (env.mro (e'.cls env)) = none)
+    (hg1 : (run { w with ctx := some h }).1.globals.get? "message_type" = none)
+    (hg2 : (run { w with ctx := some h }).1.globals.get? "reason" = none)
+    (hg3 : (run { w with ctx := some h }).1.globals.get? "exception" = none) :
+    ∃ (tb m : Msg),
+      (withBlock env w h run).1.stage =
+        (run { w with ctx := some h }).1.stage ++ [tb, Fields.update m (run { w with ctx := some h }).1.globals] ∧
+      tb.get? "message_type" = some (.str "eliot:traceback") ∧
+      tb.get? "reason" = some (.str (e'.safeStr env)) ∧ tb.get? "exception" = some (.str (e'.qual env)) ∧
+      m.get? "action_status" = some (.str "failed") ∧
+      m.get? "exception" = some (.str (e.qual env)) ∧ m.get? "reason" = some (.str (e.safeStr env)) ∧
+      m.get? "task_uuid" = some (.uuid a.uuid) ∧ m.get? "action_type" = some (.str a.atype) ∧
+      (∀ k, k ∉ STRUCT → k ≠ "exception" → k ≠ "reason" → m.get? k = none) ∧
+      (withBlock env w h run).2 = .raised e := by
+  have ha' : ({ (run { w with ctx := some h }).1 with ctx := w.ctx } : World).acts[h]? = some a := ha
+  obtain ⟨tb, m, e1, e2, e3, e4, e5, e6, e7, e8, e9, e10⟩ := finish_extractor_raises env hh
+    ({ (run { w with ctx := some h }).1 with ctx := w.ctx } : World) h a e e' f ha' hf hx hr hx' hg1 hg2 hg3
+  refine ⟨tb, m, ?_, e2, e3, e4, e5, e6, e7, e8, e9, e10, hr0⟩
+  simp only [withBlock, hr0, outcomeExc]
+  exact e1
+
+/-! ## every environment: failing destinations only append failure reports -/
+
+theorem reportFields_no_status (env : Env) (e : Exc) (m : Msg) : (reportFields env e m).get? "action_status" = none := by
+  simp [reportFields, Fields.get?]
+
+/-- what the report loop stages: one dict per error, each of the report type and none an action message -/
+theorem reportAll_stage (env : Env) (m : Msg) (es : List Exc) (w : World) :
+    ∃ rest : List Msg, (World.reportAll env w m es).stage = w.stage ++ rest ∧ rest.length = es.length ∧
+      ∀ r ∈ rest, (w.globals.get? "message_type" = none → r.get? "message_type" = some (.str DESTINATION_FAILURE)) ∧
+        (w.globals.get? "action_status" = none → r.get? "action_status" = none) := by
+  induction es generalizing w with
+  | nil => exact ⟨[], by simp [World.reportAll], rfl, by simp⟩
+  | cons e es ih =>
+    simp only [World.reportAll]
+    have hst : (w.logReport env (reportFields env e m)).stage = w.stage ++
+        [Fields.update (w.currentOrFresh.1.buildLog w.currentOrFresh.2 DESTINATION_FAILURE (reportFields env e m)).2 w.globals] := by
+      unfold World.logReport
+      have q := (quiet_currentOrFresh w).trans (quiet_buildLog w.currentOrFresh.1 w.currentOrFresh.2 DESTINATION_FAILURE
+        (reportFields env e m))
+      simp only
+      rw [deliver_stage, q.stage, q.frame.globals]
+    have hgl : (w.logReport env (reportFields env e m)).globals = w.globals := (frame_logReport env w _).globals
+    obtain ⟨rest, h1, h2, h3⟩ := ih (w.logReport env (reportFields env e m))
+    obtain ⟨b1, b2⟩ := buildLog_get w.currentOrFresh.1 w.currentOrFresh.2 DESTINATION_FAILURE (reportFields env e m)
+    refine ⟨Fields.update (w.currentOrFresh.1.buildLog w.currentOrFresh.2 DESTINATION_FAILURE (reportFields env e m)).2 w.globals :: rest,
+      by rw [h1, hst]; simp, by simp [h2], fun r hr => ?_⟩
+    rcases List.mem_cons.mp hr with hr | hr
+    · subst hr
+      refine ⟨fun hg => by rw [staged_get _ _ _ hg]; exact b1, fun hg => ?_⟩
+      rw [staged_get _ _ _ hg, b2 _ (by decide) (by decide) (by decide) (by decide)]
+      exact reportFields_no_status env e m
+    · rw [hgl] at h3
+      exact h3 r hr
+
+/-- `Destinations.send` in every environment: the message (with globals) is staged exactly once,
+followed only by `eliot:destination_failure` reports -/
+theorem send_stage_any (env : Env) (w : World) (m : Msg) :
+    ∃ rest : List Msg, (w.send env m).stage = w.stage ++ [Fields.update m w.globals] ++ rest ∧
+      ∀ r ∈ rest, (w.globals.get? "message_type" = none → r.get? "message_type" = some (.str DESTINATION_FAILURE)) ∧
+        (w.globals.get? "action_status" = none → r.get? "action_status" = none) := by
+  unfold World.send
+  simp only
+  obtain ⟨rest, h1, _, h3⟩ := reportAll_stage env (w.deliver env m).2.1 (w.deliver env m).2.2 (w.deliver env m).1
+  rw [(frame_deliver env w m).globals] at h3
+  exact ⟨rest, by rw [h1, deliver_stage], h3⟩
+
+/-- **one_start_message_any_env**: no hypothesis on the destinations — whatever subset of calls of
+whatever destinations raise, `_start` stages its dict exactly once; everything else it stages is a
+`eliot:destination_failure` report, and no report is an action message (given that global fields do
+not set `message_type` / `action_status`). -/
+theorem one_start_message_any_env (env : Env) (w : World) (h : Nat) (a : Act) (f : Fields)
+    (ha : w.acts[h]? = some a) (hs : a.sers = none) :
+    ∃ rest : List Msg,
+      (w.startRec env h f).stage = w.stage ++ [Fields.update (startDict a (.ts w.tick) f) w.globals] ++ rest ∧
+      ∀ r ∈ rest, (w.globals.get? "message_type" = none → r.get? "message_type" = some (.str DESTINATION_FAILURE)) ∧
+        (w.globals.get? "action_status" = none → r.get? "action_status" = none) := by
+  rw [startRec_eq env w h a f ha, hs]
+  simp only [Option.map_none, loggerWrite_none]
+  have q := (quiet_clock w).trans (quiet_nextLevel w.clock.1 h)
+  obtain ⟨rest, h1, h2⟩ := send_stage_any env (w.clock.1.nextLevel h).1 (startDict a (.ts w.tick) f)
+  rw [q.stage, q.frame.globals] at h1
+  rw [q.frame.globals] at h2
+  exact ⟨rest, h1, h2⟩
+
+/-- **one_end_message_any_env**: likewise for the end message — a successful end (no typed
+serializers) and a failed end whose exception has no extractor (typed or not). -/
+theorem one_end_message_any_env (env : Env) (w : World) (h : Nat) (a : Act)
+    (ha : w.acts[h]? = some a) (hf : a.finished = false) :
+    (a.sers = none → ∃ rest : List Msg,
+      (w.finishRec env h none).stage = w.stage ++ [Fields.update (succDict a (.ts w.tick)) w.globals] ++ rest ∧
+      ∀ r ∈ rest, (w.globals.get? "message_type" = none → r.get? "message_type" = some (.str DESTINATION_FAILURE)) ∧
+        (w.globals.get? "action_status" = none → r.get? "action_status" = none)) ∧
+    (∀ e : Exc, firstExtractor env (env.mro (e.cls env)) = none → ∃ rest : List Msg,
+      (w.finishRec env h (some e)).stage = w.stage ++ [Fields.update (failDict env a (.ts w.tick) e []) w.globals] ++ rest ∧
+      ∀ r ∈ rest, (w.globals.get? "message_type" = none → r.get? "message_type" = some (.str DESTINATION_FAILURE)) ∧
+        (w.globals.get? "action_status" = none → r.get? "action_status" = none)) := by
+  refine ⟨fun hs => ?_, fun e hx => ?_⟩
+  · rw [finishRec_ok_eq env w h a ha hf, hs]
+    simp only [Option.map_none, loggerWrite_none]
+    have q : Quiet w ((w.setFin h a).clock.1.nextLevel h).1 :=
+      (quiet_setFinished w h a ha).trans ((quiet_clock (w.setFin h a)).trans (quiet_nextLevel _ h))
+    obtain ⟨rest, h1, h2⟩ := send_stage_any env ((w.setFin h a).clock.1.nextLevel h).1 (succDict a (.ts w.tick))
+    rw [q.stage, q.frame.globals] at h1
+    rw [q.frame.globals] at h2
+    exact ⟨rest, h1, h2⟩
+  · rw [finishRec_err_eq env w h a e ha hf, getFields_noext env _ e hx]
+    have hc : (w.setFin h a).clock.1.acts[h]? = some { a with finished := true } := setFin_get w h a ha
+    have q : Quiet w ((w.setFin h a).clock.1.nextLevel h).1 :=
+      (quiet_setFinished w h a ha).trans ((quiet_clock (w.setFin h a)).trans (quiet_nextLevel _ h))
+    have key : ∀ s, s = none ∨ s = some [] → ∀ m, ∃ rest : List Msg,
+        (World.loggerWrite env ((w.setFin h a).clock.1.nextLevel h).1 m s).stage = w.stage ++ [Fields.update m w.globals] ++ rest ∧
+        ∀ r ∈ rest, (w.globals.get? "message_type" = none → r.get? "message_type" = some (.str DESTINATION_FAILURE)) ∧
+          (w.globals.get? "action_status" = none → r.get? "action_status" = none) := by
+      intro s hs m
+      obtain ⟨rest, h1, h2⟩ := send_stage_any env ((w.setFin h a).clock.1.nextLevel h).1 m
+      rw [q.stage, q.frame.globals] at h1
+      rw [q.frame.globals] at h2
+      rcases hs with hs | hs <;> subst hs
+      · exact ⟨rest, h1, h2⟩
+      · exact ⟨rest, h1, h2⟩
+    have hn : ((w.setFin h a).clock.1.nextLevel h).2 = a.level ++ [a.last + 1] := by rw [nextLevel_of_get hc]
+    simp only []
+    rw [hn]
+    exact key _ (sers_fail_cases a.sers) _
+
+/-! ## Non-vacuity
+Exception `i` has class `i`.  Class 3 has the diamond MRO `[3, 2, 1, 0]`; extractors are registered for
+1 (→ `code`) and 0 (→ `root`): the nearest one for an instance of 3 is class 1's, not class 0's.
+Class 5's extractor raises exception 6 (class 6, no extractor).  `str()` of exception 4 raises.
+Classes 7 (think `KeyboardInterrupt`) and 8 are bare. -/
+def exEnv : Env where
+  classOf := fun i => i
+  mro := fun c => if c = 3 then [3, 2, 1, 0] else if c = 2 then [2, 0] else if c = 1 then [1, 0] else [c]
+  qualname := fun c => if c = 3 then "vmod.C3" else if c = 7 then "builtins.KeyboardInterrupt" else "vmod.C"
+  strOf := fun i => if i = 4 then none else some "boom"
+  keyErrorClass := 9
+  extractor := fun c =>
+    if c = 1 then some (fun _ _ => .ok [("code", .nat 7)])
+    else if c = 0 then some (fun _ _ => .ok [("root", .nat 0)])
+    else if c = 5 then some (fun _ _ => .error (.user 6))
+    else none
+  serialize := fun s v k => .ok (.serOut s k v)
+  destFails := fun _ _ => none
+
+theorem exEnv_healthy : Healthy exEnv := fun _ _ => rfl
+
+/-- an unfinished action `a` (uuid 0, level [2], one position used, success fields y, z) that is current -/
+def exW : World :=
+  { acts := [{ uuid := 0, level := [2], last := 1, succ := [("y", .nat 2), ("z", .nat 3)], atype := "app:a" }],
+    ctx := some 0, nextUuid := 1, anyAdded := true, dests := [0], tick := 5 }
+
+/-- the observable part of a staged dict -/
+def view (m : Msg) : List (Option FV) :=
+  ["action_status", "task_level", "exception", "reason", "code", "root", "x", "y", "message_type"].map m.get?
+
+/-- finish_idempotent / one_end_message: one end is staged; finishing again (success, another failure) adds nothing -/
+example : ((exW.finishRec exEnv 0 (some (.user 7))).stage.map view =
+      [[some (.str "failed"), some (.lvl [2, 2]), some (.str "builtins.KeyboardInterrupt"), some (.str "boom"), none, none, none, none, none]]) ∧
+    (((exW.finishRec exEnv 0 (some (.user 7))).finishRec exEnv 0 none).stage = (exW.finishRec exEnv 0 (some (.user 7))).stage) ∧
+    (((exW.finishRec exEnv 0 none).finishRec exEnv 0 (some (.user 3))).stage.map view =
+      [[some (.str "succeeded"), some (.lvl [2, 2]), none, none, none, none, none, some (.nat 2), none]]) := by decide +kernel
+
+/-- one_start_message: exactly one dict, status started, the next position, the start field `x` and no success field -/
+example : (exW.startRec exEnv 0 [("x", .nat 1)]).stage.map view =
+    [[some (.str "started"), some (.lvl [2, 2]), none, none, none, none, some (.nat 1), none, none]] := by decide +kernel
+
+/-- the hypotheses of `one_end_message` / `extractor_mro` / `extractor_raise_contained` are satisfiable together -/
+example : exW.acts[0]? = some { uuid := 0, level := [2], last := 1, succ := [("y", .nat 2), ("z", .nat 3)], atype := "app:a" } ∧
+    firstExtractor exEnv (exEnv.mro ((Exc.user 7).cls exEnv)) = none ∧
+    nearest exEnv (exEnv.mro ((Exc.user 3).cls exEnv)) = some 1 ∧
+    (∃ f, firstExtractor exEnv (exEnv.mro ((Exc.user 5).cls exEnv)) = some f ∧ f (.user 5) 0 = .error (.user 6)) ∧
+    firstExtractor exEnv (exEnv.mro ((Exc.user 6).cls exEnv)) = none :=
+  ⟨rfl, rfl, rfl, ⟨_, rfl, rfl⟩, rfl⟩
+
+/-- failed_iff_raised / fields_placement / extractor_mro / exc_identity on a program: three nested
+blocks; the innermost raises exception 3 (diamond MRO → class 1's extractor, field `code`, not `root`),
+it is caught one level further out, the outer block then raises exception 4 whose `str()` raises and
+that propagates to the top.  Start field `x` only on starts, success field `y` only on the succeeded
+end (the middle block succeeded: the exception was caught inside it). -/
+def exProg : Block :=
+  .cons (.addDests [0]) <|
+  .cons (.withAction false { atype := "outer", fields := [("x", .nat 1)] }
+    (.cons (.addSuccess none [("y", .nat 9)])
+    (.cons (.withAction false { atype := "middle", fields := [("x", .nat 2)] }
+      (.cons (.addSuccess none [("y", .nat 8)])
+      (.cons (.tryCatch
+        (.cons (.withAction false { atype := "inner", fields := [("x", .nat 3)] }
+          (.cons (.addSuccess none [("y", .nat 7)]) (.cons (.raise 3) .nil))) .nil)
+        .nil) .nil)))
+    (.cons (.raise 4) .nil)))) .nil
+
+example : (execB exEnv none {} exProg).1.stage.map view =
+    [[some (.str "started"), some (.lvl [1]), none, none, none, none, some (.nat 1), none, none],
+     [some (.str "started"), some (.lvl [2, 1]), none, none, none, none, some (.nat 2), none, none],
+     [some (.str "started"), some (.lvl [2, 2, 1]), none, none, none, none, some (.nat 3), none, none],
+     [some (.str "failed"), some (.lvl [2, 2, 2]), some (.str "vmod.C3"), some (.str "boom"), some (.nat 7), none, none, none, none],
+     [some (.str "succeeded"), some (.lvl [2, 3]), none, none, none, none, none, some (.nat 8), none],
+     [some (.str "failed"), some (.lvl [3]), some (.str "vmod.C"), some (.str "eliot: unknown, str() raised exception"),
+      none, none, none, none, none]] ∧
+    (execB exEnv none {} exProg).2 = .raised (.user 4) := by decide +kernel
+
+/-- extractor_raise_contained: the body raises exception 5 whose extractor raises exception 6: one
+traceback for 6 (logged in the parent's context — here none, so its own task), then the failed end of 5
+without extractor fields; exception 5 itself leaves the block.  finished_stays_finished / no_second_end:
+the later explicit `finish` calls on the handle add nothing. -/
+def exProg2 : Block :=
+  .cons (.addDests [0]) <|
+  .cons (.startAs 0 false { atype := "h", fields := [("x", .nat 1)] }) <|
+  .cons (.tryCatch (.cons (.withHandle 0 (.cons (.raise 5) .nil)) .nil) .nil) <|
+  .cons (.finish 0 none) <| .cons (.finish 0 (some 3)) <| .cons (.log { mtype := "after" }) .nil
+
+example : (execB exEnv none {} exProg2).1.stage.map view =
+    [[some (.str "started"), some (.lvl [1]), none, none, none, none, some (.nat 1), none, none],
+     [none, some (.lvl [1]), some (.str "vmod.C"), some (.str "boom"), none, none, none, none, some (.str "eliot:traceback")],
+     [some (.str "failed"), some (.lvl [2]), some (.str "vmod.C"), some (.str "boom"), none, none, none, none, none],
+     [none, some (.lvl [1]), none, none, none, none, none, none, some (.str "after")]] ∧
+    (execB exEnv none {} exProg2).2 = .ok ∧
+    (execS exEnv none (execB exEnv none {} (.cons (.addDests [0]) (.cons (.startAs 0 false { atype := "h" }) .nil))).1
+      (.withHandle 0 (.cons (.raise 5) .nil))).2 = .raised (.user 5) := by decide +kernel
+
+/-- one_start_message_any_env: destination 0 raises on every call — the start dict is still staged
+exactly once, followed by one failure report that is not an action message -/
+example : let env := { exEnv with destFails := fun _ _ => some (Exc.user 8) }
+    ((exW.startRec env 0 [("x", .nat 1)]).stage.map view).map (fun v => (v[0]?, v[8]?)) =
+      [(some (some (.str "started")), some none), (some none, some (some (.str "eliot:destination_failure")))] := by
+  decide +kernel
+
 end Sys.C03
